@@ -30,6 +30,10 @@ TRANSPARENT = {"combinator::map", "combinator::cut", "combinator::recognize", "c
                "combinator::map_opt", "combinator::map_res", "error::context", "combinator::complete"}
 
 
+# helper rule functions of the form  fn h(text) = terminated(tag(text), <look-ahead>)  (filled by run(), re-verified there)
+PARAM_TOKEN_RULES = set()
+
+
 def peg(node):
     """expression tree -> PEG AST
     ('tok', s, nocase) ('ref', name) ('builtin', name) ('alt',[..]) ('seq',[..]) ('many', x) ('opt', x) ('ws', x)
@@ -67,6 +71,16 @@ def peg(node):
             return ("opt", peg(kids[0]))
         if name == "parser::ws":
             return ("ws", peg(kids[0]))
+        if name.startswith("parser::") and name[len("parser::"):] in WRAPPER_RULES:
+            for k in kids:
+                if k[0] in ("call", "fn", "tuple"):
+                    return peg(k)
+            return ("unknown", name)
+        if name in ("combinator::not", "combinator::peek"):
+            return ("look", peg(kids[0]))
+        if name.startswith("parser::") and kids and kids[0][0] in ("str", "char") and name[len("parser::"):] in PARAM_TOKEN_RULES:
+            # helper combinator taking the token text:  keyword("if")  ==  tag("if") followed by a look-ahead
+            return ("tok", kids[0][1], False, "bounded")
         if name == "combinator::value":
             return peg(kids[1])
         if name in TRANSPARENT:
@@ -163,6 +177,91 @@ def classify_form(form):
     return ("other", [x for x in form if x != ELL])
 
 
+def left_fold_helper_ok(h):
+    """h(first, rest, .., f) is a left fold:  acc = first; for x in rest { acc = f(acc, x) }  (it may stop early), result Some(acc)/acc"""
+    cached = getattr(h, "_left_fold", None)
+    if cached is not None:
+        return cached
+    ok = False
+    cms = [c for c in h.calls if re.search(r"ops::function::FnMut::call_mut$|ops::function::Fn::call$|ops::function::FnOnce::call_once$", c.path or "")]
+    bad = [c for c in h.calls if re.search(r"::rev$|rfold|DoubleEndedIterator|next_back", c.path or "")]
+    its = [c for c in h.calls if re.search(r"IntoIterator::into_iter$", c.path or "")]
+    nxt = [c for c in h.calls if re.search(r"Iterator::next$", c.path or "")]
+    if not bad and len(its) == 1 and len(nxt) == 1:
+        for cm in cms:
+            if len(cm.args) != 2:
+                continue
+            tup = h.single_def(op_base_(cm.args[1]))
+            if not tup or tup[1] == "term" or tup[2]["k"] != "agg" or tup[2].get("ak") != "tuple" or len(tup[2]["ops"]) != 2:
+                continue
+            a, x = tup[2]["ops"]
+            # acc: a local whose definitions are exactly {the first parameter, the result of this very call}
+            al = op_base_(a)
+            for _ in range(4):
+                d = h.defs.get(al, [])
+                if len(d) == 1 and d[0][1] != "term" and d[0][2]["k"] == "use" and op_base_(d[0][2]["a"]) is not None and not (1 <= al <= h.arg_count):
+                    if len(h.defs.get(op_base_(d[0][2]["a"]), [])) >= 2 or h.local_name(op_base_(d[0][2]["a"])):
+                        al = op_base_(d[0][2]["a"])
+                        continue
+                break
+            srcs = set()
+            for (b, i, rv) in h.defs.get(al, []):
+                if i != "term" and rv["k"] == "use":
+                    srcs.add(op_base_(rv["a"]))
+            acc_ok = len(srcs) == 2 and cm.dest[0] in srcs and any(1 <= s_ <= h.arg_count for s_ in srcs if s_ is not None)
+            # x: the item produced by next() on into_iter(<a parameter>)
+            x_ok = any(k == "call" and info is nxt[0] for k, info in h.trace(op_base_(x)))
+            it_src = h.trace(op_base_(its[0].args[0]))
+            it_ok = any(k == "arg" for k, info in it_src)
+            if acc_ok and x_ok and it_ok:
+                ok = True
+    h._left_fold = ok
+    return ok
+
+
+def op_base_(op):
+    from ..mir import op_base
+    return op_base(op)
+
+
+# wrapper combinators  fn w(.., f: F) -> impl FnMut(Span) -> IResult  whose closure either returns f.parse(input) unchanged or an
+# error: transparent for the grammar (filled by detect_wrapper_rules, re-verified on every run)
+WRAPPER_RULES = set()
+
+
+def detect_wrapper_rules(prog, rule_fns):
+    WRAPPER_RULES.clear()
+    for name, w in rule_fns.items():
+        if w.arg_count < 1:
+            continue
+        kids_ = prog.children(w)
+        if len(kids_) != 1:
+            continue
+        g = kids_[0]
+        parses = [c for c in g.calls if re.search(r"nom::internal::Parser::parse$", c.path or "")]
+        if len(parses) != 1 or parses[0].dest != [0]:
+            continue
+        # the input handed to f is the closure's own input (argument 2), untouched
+        tr = g.trace(op_base_(parses[0].args[1]))
+        if not tr or tr[-1] != ("arg", 2):
+            continue
+        # every other assignment of the result is an Err
+        others = [rv for b in g.reachable for st in g.stmts(b) if st["k"] == "assign" and st["lhs"] == [0] for rv in [st["rv"]]]
+        if all(rv["k"] == "agg" and rv.get("variant") == "Err" for rv in others):
+            WRAPPER_RULES.add(name)
+
+
+def detect_param_token_rules(rule_fns):
+    """h(text: &str) whose body is  tag(text)  followed by look-aheads only (at least one): a token with a word boundary"""
+    PARAM_TOKEN_RULES.clear()
+    for name, f in rule_fns.items():
+        if f.arg_count == 1 and "str" in f.ty(f.locals[1]["ty"])["s"]:
+            g = peg(et.build_local(f, 0))
+            parts = g[1] if g[0] == "seq" else [g]
+            if len(parts) >= 2 and parts[0] == ("unknown", "token with non-literal argument") and all(x[0] == "look" for x in parts[1:]):
+                PARAM_TOKEN_RULES.add(name)
+
+
 def run(chk, prog):
     P = "milu::parser::"
     rule_fns = {}
@@ -174,7 +273,11 @@ def run(chk, prog):
         return
     pegs = {}
     has_ws = {}
+    detect_param_token_rules(rule_fns)
+    detect_wrapper_rules(prog, rule_fns)
     for name, f in rule_fns.items():
+        if name in PARAM_TOKEN_RULES:
+            continue
         tree = et.build_local(f, 0)
         # only functions that build a nom parser
         names = [n[1] for n in et.walk(tree) if n[0] == "call"]
@@ -210,10 +313,27 @@ def run(chk, prog):
                         "toks": toks(opp), "ws": opp[0] == "ws"}
         return None
 
+    def head_ref(p):
+        """the rule a PEG expression starts with (first element of sequences, through ws/opt wrappers)"""
+        p = strip(p)
+        if p[0] == "ref":
+            return p[1]
+        if p[0] == "seq" and p[1]:
+            return head_ref(p[1][0])
+        return None
+
+    # the top of the binary ladder: an alternative of the top rule, or the rule such an alternative starts with
+    # (`cond = or_level ('?' e ':' e)?` is the left-factored spelling of `or_level '?' .. | or_level`)
     start = None
     for alt in topb[1]:
-        if alt[0] == "ref" and alt[1] in pegs and binary_shape(alt[1]):
-            start = alt[1]
+        cur = alt[1] if alt[0] == "ref" else None
+        hops = 0
+        while cur in pegs and hops < 4:
+            if binary_shape(cur):
+                start = cur
+                break
+            cur = head_ref(pegs[cur])
+            hops += 1
     if start is None:
         chk.anchor_missing("grammar", "no binary-operator level reachable from the top rule")
         return
@@ -419,7 +539,11 @@ def run(chk, prog):
                     folds.append(c)
                 if re.search(r"Iterator::rev$|::rev$", c.path or ""):
                     folds.append(c)
-        lf = [c for c in folds if (c.path or "").endswith("Iterator::fold")]
+                hk = c.local_key() if hasattr(c, "local_key") else None
+                if hk and hk in prog.fns and prog.fns[hk].crate == "milu" and left_fold_helper_ok(prog.fns[hk]):
+                    folds.append(c)
+        lf = [c for c in folds if (c.path or "").endswith("Iterator::fold") or
+              (c.local_key() in prog.fns and prog.fns[c.local_key()].crate == "milu" and left_fold_helper_ok(prog.fns[c.local_key()]))]
         okf = len(lf) == 1 and len(folds) == 1
         chk.instance("R3-assoc", f.file, "level %s folds operands left-to-right" % name, okf)
         if not okf:
@@ -439,20 +563,23 @@ def run(chk, prog):
                         if not okp:
                             chk.finding("R3-assoc", P + name, "operand-order", "", f.file,
                                         "level %s passes its operands to the constructor in the wrong order (left operand must be the accumulator)" % name)
-    # ternary: right recursion
+    # ternary: right recursion.  Accepted spellings: `level1 ? top : top` as one alternative, or the left-factored
+    # `level1 (? top : top)?`; in both the flattened rule references are [level1, top, top]
+    ntern = 0
     for alt in topb[1]:
         if alt[0] == "ref" and alt[1] in pegs:
             b = body(alt[1])
-            if b[0] == "alt":
-                for form in b[1]:
-                    tk = [t for t, _ in toks(form)]
-                    if "?" in tk and form[0] == "seq":
-                        rr = refs(form)
-                        ok = len(rr) == 3 and rr[0] == start and rr[2] == top
-                        chk.instance("R3-assoc", "milu/src/parser.rs", "?: takes cond from %s and recurses right through %s" % (start, top), ok)
-                        if not ok:
-                            chk.finding("R3-assoc", P + alt[1], "ternary", "", "milu/src/parser.rs",
-                                        "the conditional operator no longer has the shape level1 ? top : top (right-to-left)")
+            for form in (b[1] if b[0] == "alt" else [b]):
+                tk = [t for t, _ in toks(form)]
+                if "?" in tk and form[0] == "seq":
+                    ntern += 1
+                    rr = refs(form)
+                    ok = len(rr) == 3 and rr[0] == start and rr[1] == top and rr[2] == top and tk.index("?") < tk.index(":") if ":" in tk else False
+                    chk.instance("R3-assoc", "milu/src/parser.rs", "?: takes cond from %s and recurses right through %s" % (start, top), ok)
+                    if not ok:
+                        chk.finding("R3-assoc", P + alt[1], "ternary", "", "milu/src/parser.rs",
+                                    "the conditional operator no longer has the shape level1 ? top : top (right-to-left)")
+    chk.floor("R3-ternary", ntern, 1, "rules spelling the documented `? :` operator")
 
     # ------------------------------------------------------------ R4 constructor tables
     def arms(fname):
